@@ -68,8 +68,9 @@ PROPS: Dict[str, Dict[str, Any]] = {
                          "C02_sync_guard", "C02_equals_accept_iff", "C02_equals_type_err", "C02_none",
                          "src_scalar_sync", "src_scalar_async", "src_scalar_simple", "src_scalar_init",
                          "src_scalar_fastpath_consistent", "scalarSync_eq", "scalarAsync_eq", "gate_exec", "procs_exec",
-                         "predsSync_exec", "predsAsync_exec", "compFold_sync", "compFold_async", "forFold_procs"],
-            "modules": ["KodaModel.Properties.C02", "KodaModel.Properties.C02Src"],
+                         "predsSync_exec", "predsAsync_exec", "compFold_sync", "compFold_async", "forFold_procs",
+                         "src_equals", "src_equals_pins", "equals_eq", "equals_tail", "eforFold_procs"],
+            "modules": ["KodaModel.Properties.C02", "KodaModel.Properties.C02Src", "KodaModel.Properties.C02Eq"],
             "level_note": "the scalar pipeline is tied to the source twice: (1) TRANSLATOR - harness/pysrc.py rewrites "
                           "Generated/ScalarSrc.lean from the AST of _ToTupleStandardValidator._validate_to_tuple, "
                           "_validate_to_tuple_async and the bare-validator fast path (_internal.py: the code behind all ten "
@@ -77,6 +78,8 @@ PROPS: Dict[str, Dict[str, Any]] = {
                           "interpreting the translated statements (KodaModel/PyImp.lean: assignment, if/elif, the for loop "
                           "over the preprocessors, the list comprehensions over the predicates, await, early return) is the "
                           "model's scalarStep for every configuration and input - outcome, payload, error, trace, exceptions; "
+                          "EqualsValidator._validate_to_tuple is translated the same way (Generated/EqSrc.lean, KodaModel/PyEq.lean) and "
+                          "src_equals proves it equal to equalsStep; "
                           "(2) the correspondence stream.  The C02_* theorems state the property about scalarStep.  Trusted: "
                           "the translator, the interpreter's reading of each construct, and the model's meaning of calling a "
                           "coercer / processor / predicate",
